@@ -10,6 +10,17 @@ REPLAY = {"_feed_extended": "c20.replay_feed_extended", "*": "c20.replay_feed_ex
 
 def setup(E):
     channel.declare_c20(E)
+    # the sender's side of "never deadlocks": a window grant wakes every parked sender (contract shared with C19)
+    E2 = type(E)()
+    channel.declare_c19(E2)
+    qn = C + "_window_adjust"
+    global TARGETS
+    TARGETS = [t for t in TARGETS if not (isinstance(t, tuple) and t[1] == "wakes-all")]
+    TARGETS.append((qn, "wakes-all", dict(E2.contracts[qn], **{
+        "+replace": True, "+contracts": {k: v for k, v in E2.contracts.items() if k != qn},
+        "+fields": {k: dict(d["fields"]) for k, d in E2.classdecl.items()},
+        "+engine": {"monitors": E2.monitors, "ghost_types": dict(E.ghost_types, **E2.ghost_types),
+                    "inline_ok": set(E2.inline_ok) | set(E.inline_ok)}})))
 
 
 def lemmas(E):
